@@ -38,3 +38,11 @@ def to_ints(a, tol=0.0):
     with np.errstate(invalid="ignore"):
         ok = bool(np.all(np.abs(a - r) <= tol)) and bool(np.all(np.isfinite(a)))
     return r.astype(np.int64) if ok else r, ok
+
+
+def scramble(mapping, salt):
+    """the same vdim_mapping with its keys written in the reverse order for every second `salt`: a mapping is a
+    dictionary, the order of its keys must not matter (seeded changes C05-2, C12-1, C20-1 all relied on it)"""
+    if mapping and len(mapping) > 1 and int(salt) % 2 == 0:
+        return dict(reversed(list(mapping.items())))
+    return mapping
